@@ -631,6 +631,9 @@ func (b *Builder) of1(v ssa.Value, at ssa.Instruction, depth int) *Term {
 		if init, step, ok := inductionPhi(x); ok {
 			return b.mk("ind", step, v, b.of(init, at, depth+1))
 		}
+		if t := b.trimPhi(x, at, depth); t != nil {
+			return t
+		}
 		if init, k, ok := cursorPhi(x); ok {
 			// rest = rest[k:] per iteration: the view of the initial slice / string from the k-step counter on
 			lo := &Term{Op: "ind", Name: "+" + k, Args: []*Term{{Op: "const", Name: "0", C: constant.MakeInt64(0)}}}
@@ -784,6 +787,47 @@ func (b *Builder) logicalPhi(x *ssa.Phi, at ssa.Instruction, depth int) *Term {
 		}
 	}
 	return b.mk(name, "", x, flat...)
+}
+
+// trimPhi recognises `if strings.HasPrefix(x, c) { x = x[len(c):] }` (c a constant string): the merged value is
+// strings.TrimPrefix(x, c), which does exactly that. The phi must merge x from the testing block and the slice from
+// the test's true successor, a block with that one predecessor.
+func (b *Builder) trimPhi(p *ssa.Phi, at ssa.Instruction, depth int) *Term {
+	if len(p.Edges) != 2 {
+		return nil
+	}
+	blk := p.Block()
+	for i := 0; i < 2; i++ {
+		sl, ok := p.Edges[i].(*ssa.Slice)
+		if !ok || sl.X != p.Edges[1-i] || sl.High != nil || sl.Max != nil || sl.Low == nil {
+			continue
+		}
+		lo, ok := sl.Low.(*ssa.Const)
+		if !ok || lo.Value == nil || lo.Value.Kind() != constant.Int {
+			continue
+		}
+		test, taken := blk.Preds[1-i], blk.Preds[i]
+		if sl.Block() != taken || len(taken.Preds) != 1 || taken.Preds[0] != test || len(test.Succs) != 2 || test.Succs[0] != taken || test.Succs[1] != blk {
+			continue
+		}
+		ifi, ok := test.Instrs[len(test.Instrs)-1].(*ssa.If)
+		if !ok {
+			continue
+		}
+		call, ok := ifi.Cond.(*ssa.Call)
+		if !ok || CalleeName(&call.Call) != "strings.HasPrefix" || len(call.Call.Args) != 2 || call.Call.Args[0] != sl.X {
+			continue
+		}
+		c, ok := call.Call.Args[1].(*ssa.Const)
+		if !ok || c.Value == nil || c.Value.Kind() != constant.String {
+			continue
+		}
+		if n, exact := constant.Int64Val(lo.Value); !exact || n != int64(len(constant.StringVal(c.Value))) {
+			continue
+		}
+		return b.mk("call", "strings.TrimPrefix", p, b.of(sl.X, at, depth+1), b.of(c, at, depth+1))
+	}
+	return nil
 }
 
 // inductionPhi recognises phi(init, phi±c): a counter with constant step.
